@@ -95,16 +95,20 @@ func (c ListCase) Post124() bool {
 	return post
 }
 
-var dirPool = []string{"", "", "", "a/", "a/b/", "a/b/c/", "vendor/", "vendor/x/", "vendor/x/y/", "pkg/vendor/", "pkg/vendor/z/", "pkg/vendor/z/w/", "vendor/vendor/", "sub/", "sub/deep/", "sub/vendor/", "A/", "a/B/", "Sub/", "é/", "ﬀ/", "ff/", "K/", "k/", "\u212a/", "\u212a/sub/", "\u017f/", "s/", "\u212b/", "\u00e5/", "a/\u212a/", "a/k/", "internal/", ".git/", "cmd/tool/", "testdata/", "con/", "a.b/"}
-var filePool = []string{"x.go", "y.go", "go.mod", "go.mod", "GO.MOD", "Go.Mod", "go.MOD", "LICENSE", "license", "License", "README.md", "modules.txt", "vendor.go", "vendor", ".hg_archival.txt", "aux.txt", "NUL", "com1.go", "a~1", "é.go", "É.go", "X.GO", "x.GO", "ß", "ss", "\u212a", "k", "K", "\u017f", "s", "\u212b", "\u00e5", "\u1e9e", "straße.go", "STRASSE.go", "σ.txt", "ς.txt", "Σ.txt", "a b.txt", "a\tb", "trailing.", ".hidden", "..", "...", "f|g", "f?g", "f*g", "weird[1].go", "go.mod.bak", "x", "z", ".git", ".hg", ".svn", ".bzr", ".gitignore", "cargo.mod", "algo.mod", "x.GO.MOD", "notgo.mod", "go.mod.go.mod", "LICENSE.txt", "MYLICENSE"}
+var dirPool = []string{"", "", "", "a/", "a/b/", "a/b/c/", "vendor/", "vendor/x/", "vendor/x/y/", "pkg/vendor/", "pkg/vendor/z/", "pkg/vendor/z/w/", "vendor/vendor/", "sub/", "sub/deep/", "sub/vendor/", "A/", "a/B/", "Sub/", "é/", "ﬀ/", "ff/", "K/", "k/", "\u212a/", "\u212a/sub/", "\u017f/", "s/", "\u212b/", "\u00e5/", "a/\u212a/", "a/k/", "internal/", ".git/", "cmd/tool/", "testdata/", "con/", "a.b/", "..data/", "..2024_01_01/", "com1.conf.d/", "sub/..inner/"}
+var filePool = []string{"x.go", "y.go", "go.mod", "go.mod", "GO.MOD", "Go.Mod", "go.MOD", "LICENSE", "license", "License", "README.md", "modules.txt", "vendor.go", "vendor", ".hg_archival.txt", "aux.txt", "NUL", "com1.go", "a~1", "é.go", "É.go", "X.GO", "x.GO", "ß", "ss", "\u212a", "k", "K", "\u017f", "s", "\u212b", "\u00e5", "\u1e9e", "straße.go", "STRASSE.go", "σ.txt", "ς.txt", "Σ.txt", "a b.txt", "a\tb", "trailing.", ".hidden", "..", "...", "f|g", "f?g", "f*g", "weird[1].go", "go.mod.bak", "x", "z", ".git", ".hg", ".svn", ".bzr", ".gitignore", "cargo.mod", "algo.mod", "x.GO.MOD", "notgo.mod", "go.mod.go.mod", "LICENSE.txt", "MYLICENSE",
+	// names that begin with dots without being dot or dot-dot; reserved device names with several suffixes
+	"..keep", "..data", "...x", ".a.b", "aux.tar.gz", "NUL.pb.go", "lpt9.a.b.c", "com9", "LPT9.txt"}
 
 // The "mild" pools only contain names that are valid and do not collide with each other under
 // case folding, so that lists built from them usually pass the check while still exercising
 // the omission rules (vendor variants, nested modules, VCS files, irregular modes).
-var mildDirPool = []string{"", "", "", "a/", "a/b/", "a/b/c/", "vendor/", "vendor/x/", "vendor/x/y/", "pkg/vendor/", "pkg/vendor/z/", "pkg/vendor/z/w/", "vendor/vendor/", "sub/", "sub/deep/", "sub/vendor/", "sub/vendor/q/", "internal/", "cmd/tool/", "é/", "testdata/", ".git/", "cmd/generate/", "cmd/gen/", "docs/", "doc/", "doc/s/", "internal/xy/", "internal/x/"}
-var mildFilePool = []string{"x.go", "y.go", "go.mod", "LICENSE", "README.md", "modules.txt", "vendor.go", "vendor", ".hg_archival.txt", "é.go", "a b.txt", ".hidden", "weird[1].go", "z", "go.mod.bak", "main_test.go", ".git", ".hg", ".gitignore", "cargo.mod", "algo.mod", "MYLICENSE"}
+var mildDirPool = []string{"", "", "", "a/", "a/b/", "a/b/c/", "vendor/", "vendor/x/", "vendor/x/y/", "pkg/vendor/", "pkg/vendor/z/", "pkg/vendor/z/w/", "vendor/vendor/", "sub/", "sub/deep/", "sub/vendor/", "sub/vendor/q/", "internal/", "cmd/tool/", "é/", "testdata/", ".git/", "cmd/generate/", "cmd/gen/", "docs/", "doc/", "doc/s/", "internal/xy/", "internal/x/", "..data/", "..2024_01_01/", "sub/..inner/"}
+var mildFilePool = []string{"x.go", "y.go", "go.mod", "LICENSE", "README.md", "modules.txt", "vendor.go", "vendor", ".hg_archival.txt", "é.go", "a b.txt", ".hidden", "weird[1].go", "z", "go.mod.bak", "main_test.go", ".git", ".hg", ".gitignore", "cargo.mod", "algo.mod", "MYLICENSE", "..keep", "...x", ".a.b"}
 
-var uncleanPool = []string{"a//b.go", "./x.go", "a/../b.go", "a/", "/abs/x.go", "", ".", "a/./b", "../up.go", "//", "a/b/..", "/"}
+var uncleanPool = []string{"a//b.go", "./x.go", "a/../b.go", "a/", "/abs/x.go", "", ".", "a/./b", "../up.go", "//", "a/b/..", "/",
+	// unclean spellings of go.mod files: invalid themselves, and no reason to treat their directory as a module
+	"sub//go.mod", "sub/./go.mod", "./go.mod", "other/../sub/GO.MOD", "a/b/../go.mod", "a//go.mod", "pkg/./go.mod"}
 var modIDs = [][2]string{
 	{"example.com/m", "v1.0.0"}, {"example.com/m", "v0.0.0-20200101000000-abcdefabcdef"}, {"example.com/m/v2", "v2.1.0"}, {"gopkg.in/yaml.v2", "v2.4.0"},
 	{"example.com/m", "v2.0.0+incompatible"}, {"github.com/Azure/Go-Sdk", "v1.2.3-beta.1"}, {"example.com/m", "v1.0.0-pre"},
